@@ -368,6 +368,14 @@ def gen_sequence(rng, src, pop, nodes, ids):
     return steps
 
 
+def members_of(x):
+    if x["t"] == "comp":
+        return x["ms"]
+    if x["t"] == "env":
+        return [x[k] for k in ("store", "source") if x.get(k)]
+    return []
+
+
 def gen_case(rng, shape=None):
     pop, nodes = gen_population(rng)
     rtypes = RTYPES_OF.pop(id(pop), REL_TYPES)
@@ -405,9 +413,24 @@ def gen_case(rng, shape=None):
         src = {"t": "env", "store": store}
         if len(members) >= 2:
             rest = members[1:]
-            src["source"] = rest[0] if len(rest) == 1 else {"t": "comp", "ms": rest}
-        if rng.random() < 0.1:
+            src["source"] = rest[0] if len(rest) == 1 and rng.random() < 0.5 else {"t": "comp", "ms": rest}
+        r = rng.random()
+        if r < 0.1:
             src = {"t": "env", "source": members[0]} if rng.random() < 0.7 else {"t": "env"}
+        elif r < 0.25:
+            # an Environment over a composite only (no store), optionally with a sink of its own
+            src = {"t": "env", "source": {"t": "comp", "ms": members}}
+            if rng.random() < 0.5:
+                src["sink"] = True
+    # construction order: a composite may be created (and handed to its parent composite / Environment) while it
+    # is still empty or half-filled, its members being attached afterwards
+    def mark_late(x):
+        if x["t"] == "comp" and x["ms"] and rng.random() < 0.4:
+            x["late"] = rng.choice([0, 0, rng.randint(0, len(x["ms"]))])
+            x["late_bulk"] = rng.random() < 0.5
+        for m in members_of(x):
+            mark_late(m)
+    mark_late(src)
     if src["t"] in ("comp", "env") and rng.random() < 0.15:
         src["af"] = [rand_filter(rng, pop, nodes)]
     if rng.random() < 0.03 and src["t"] == "comp":
@@ -957,7 +980,8 @@ def check(run):
         "three relationship types, ends changing between versions), unversioned objects, created_by_ref; partitioned "
         "with overlapping copies (some with other content) over 1-4 members (MemorySource, MemoryStore, "
         "FileSystemSource, FileSystemStore, bundlify) attached to a CompositeDataSource, a nested composite or an "
-        "Environment(store, source), with attached filters (all operators) at any level; every case also with the "
+        "Environment(store, source) / Environment(source=composite[, sink]), composites optionally constructed (and handed to "
+        "their parent) before some or all of their members are attached, with attached filters (all operators) at any level; every case also with the "
         "members attached in another order; half of the cases continue on the SAME source objects with a sequence of "
         "add_filter / remove_filter at any level, later additions to the stores under the leaves, and reads of the top "
         "source and of members directly in between; reads: get / all_versions per id, queries, relationships and related_to per node with all "
